@@ -52,6 +52,19 @@ let parts_of_spec (spec : string) : ppart list =
     | _ -> failwith ("bad spec " ^ p)) (expand_spec spec))
 
 let flat_spec (spec : string) : z list = pflatten Z0 (parts_of_spec spec)
+
+let has_unl (spec : string) : bool =
+  List.exists (fun p -> String.length p >= 4 && String.sub p 0 4 = "unl:") (expand_spec spec)
+
+(* parts of a composite as the model of compositeSchedule.Left sees them: a known number of tokens (counted by
+   the model of the configured profile) or unlimited *)
+let cparts_of_spec (spec : string) : cpart list =
+  List.map (fun p ->
+    if String.length p >= 4 && String.sub p 0 4 = "unl:" then CUnl false
+    else CKnown (nat_of_int (List.length (pflatten Z0 (parts_of_spec p))))) (expand_spec spec)
+
+let zlist_string (l : z list) : string =
+  Printf.sprintf "%d %s" (List.length l) (String.concat "," (List.map (fun x -> string_of_int (int_of_z x)) l))
 let count_spec (spec : string) : int = int_of_z (profile_count (parts_of_spec spec))
 
 let predict (c : string) (obs : string) : string * string * bool =
@@ -111,11 +124,17 @@ let predict (c : string) (obs : string) : string * string * bool =
       let pred = (match istep_tokens zf zt zs zd with Some l -> show l | None -> "model-out-of-fuel") in
       let want = show (istep_spec zf zt zs zd) in
       (pred, verdict (obs = want) ("instance_step tokens, expected " ^ want), int_of_string to_ > int_of_string from)
+  | ["cleft"; spec; draws] ->
+      let ps = cparts_of_spec spec and d = nat_of_int (int_of_string draws) in
+      let pred = zlist_string (cleft_trace Sticky d ps) in
+      let want = zlist_string (cleft_spec_trace d ps) in
+      (pred, verdict (obs = want) ("Left() of a composite is unknown (-1) while an unlimited part is ahead, else the sum of its parts; expected " ^ want),
+       List.length ps >= 2)
   | ["fincb"; spec; _g; reps] ->
-      let unl = String.length spec >= 4 && String.sub spec 0 4 = "unl:" in
+      let unl = has_unl spec in
       let want = Printf.sprintf "0 %s 0" (if unl then "0" else reps) in
       (want, verdict (obs = want) ("finish callback must fire exactly once, and only when the schedule has ended; expected " ^ want), true)
-  | "start" :: per :: _t :: _rps :: _a :: kf :: st :: _shoot :: _cancel :: failgun :: _provrun :: ([] | [_]) ->
+  | "start" :: per :: _t :: _rps :: _a :: kf :: st :: _shoot :: _cancel :: failgun :: _provrun :: (([] | [_] | [_; _]) as opt) ->
       (* tokens of the configured startup profile: from the model, not from the case line *)
       let k = List.length (flat_spec st) in
       if k <> int_of_string kf then ("?", "BAD:case-line-K-differs-from-the-model-count-of-the-startup-profile", false) else
@@ -146,7 +165,16 @@ let predict (c : string) (obs : string) : string * string * bool =
            let m_notahead = List.for_all (fun (_, ci) ->
                int_of_nat (started_by ci fin.base) <= int_of_nat (released_by ci toks)) (creations fin.base) in
            let p_started = List.length m_ids in
-           let pred = Printf.sprintf "%s %d %d %s 1 %s %s %s %s %s %s %s 0" outcome p_started p_started (ids_string m_ids)
+           (* discard_overflow on and a first instance that takes d0 to create: the code's loop (NeverSkip) over the
+              configured profile makes every token an instance however late *)
+           let over_ok =
+             (match opt with
+              | [slow; "1"] when String.length slow > 1 && c = None && not (b fail) ->
+                  let d0 = int_of_string (String.sub slow 1 (String.length slow - 1)) * 1000000 in
+                  let fin = odrive NeverSkip true (nat_of_int (40 * k + 80)) (z_of_int d0) (sinit (flat_spec st) Z0) in
+                  (match fin.spc with LEnd EExhausted -> List.length fin.started = p_started | _ -> false)
+              | _ -> true) in
+           let pred = if not over_ok then "model-run-with-discard-overflow-differs" else Printf.sprintf "%s %d %d %s 1 %s %s %s %s %s %s %s 0" outcome p_started p_started (ids_string m_ids)
                (field_of_bool m_notahead) ammo_out rps_fin ext fail m_end (if conserved = "-" then "-" else "1") ^ " 1 "
                ^ string_of_int (if fail0 then 1 else List.length (creations fin.base)) in
            let want_holes = if b fail && not pre_fail then 1 else 0 in
